@@ -607,6 +607,56 @@ func TestC16Termination(t *testing.T) {
 			run.Case(cur, true)
 		}
 	}
+	// a registration or a clear that arrives while a chain is being applied waits for it (or not),
+	// but applying the chain terminates with the whole chain either way
+	if run.Shard == 0 {
+		for round := 0; round < 12; round++ {
+			cur = fmt.Sprintf("chain A -> B -> C -> D while another goroutine queues a registry change (round %d)", round)
+			dog.Case(cur)
+			store := ebu.NewMemoryStore()
+			bus := ebu.New(ebu.WithStore(store))
+			var wg sync.WaitGroup
+			fired := false
+			for k, e := range [][2]string{{"A", "B"}, {"B", "C"}, {"C", "D"}} {
+				k, e := k, e
+				ebu.RegisterUpcastFunc(bus, e[0], e[1], func(d json.RawMessage) (json.RawMessage, string, error) {
+					if k == 0 && !fired {
+						fired = true
+						started := make(chan struct{})
+						wg.Add(1)
+						go func() {
+							defer wg.Done()
+							close(started)
+							switch round % 3 {
+							case 0:
+								bus.ClearUpcastsForType("c16.unrelated")
+							case 1:
+								ebu.RegisterUpcastFunc(bus, "c16.x", "c16.y", func(d json.RawMessage) (json.RawMessage, string, error) { return d, "c16.y", nil })
+							default:
+								bus.ClearUpcastsForType("c16.unrelated")
+								bus.ClearUpcastsForType("c16.unrelated2")
+							}
+						}()
+						<-started
+						for y := 0; y < 200; y++ {
+							runtime.Gosched()
+						}
+						time.Sleep(time.Duration(round) * time.Millisecond)
+					}
+					return d, e[1], nil
+				})
+			}
+			store.Append(context.Background(), &ebu.Event{Type: "A", Data: json.RawMessage(`{}`)})
+			var types []string
+			err := bus.ReplayWithUpcast(context.Background(), ebu.OffsetOldest, func(e *ebu.StoredEvent) error { types = append(types, e.Type); return nil })
+			wg.Wait()
+			dog.Tick()
+			if err != nil || fmt.Sprint(types) != "[D]" {
+				run.Violation("upcast-apply:chain-with-queued-registry-change", fmt.Sprintf("%s: replay returned %v and delivered %v (want [D])", cur, err, types), nil)
+			}
+			run.Case(cur, true)
+		}
+	}
 	nNames := run.Scale(3, 4)
 	names := []string{"A", "B", "C", "D"}[:nNames]
 	var edges [][2]string
